@@ -87,6 +87,11 @@ CLAIMED["C09"] = dict(
     text="Decides the acceptance clauses: sizes hold their BITS; a decoder is infallible exactly when every byte string of its size is canonical; every fallible decoder builds its value only under its validity predicate (v < PRIME by interval analysis, Boolean byte <= 1, zero padding, decompress()); HybridEventType::try_from inverts `as u8`; the info codecs read what they write at the same offsets and widths. One deviant is reported as a known finding (Fp25519 reduces instead of rejecting). Round-trip equality for all values and the bit-matrix transposes are numerical and not decided.",
     ref="§3 C09")
 
+CLAIMED["C13"] = dict(
+    technique="static analysis: def-use provenance of map keys and transport routes from one ChannelId, guard dominance of the record-count check, close-at-last pairing with await settlement, WAKE-1 may-analysis over gateway/transport poll functions, variant-set dataflow over Result-item stream adapters",
+    text="Decides keying and bounds: a sender is stored under the full (peer, gate) channel id and the transport route is built from the two halves of the same id; receivers build their route from the id they are keyed by, on the matching transport and map; sending at or beyond the declared count is refused before anything is written and the channel is closed at i+1 exactly after the last record; poll functions never return Pending without a registered waker; receive-path stream adapters pass errors on. Delivery, ordering within the window, deadlock freedom and the capacity/read-size alignment rule are not decided.",
+    ref="§3 C13")
+
 NOT_APPLICABLE = {
     "C01": "end-to-end numerical equality of the MPC histogram with a plaintext reference over all inputs/shardings: no clause of it is visible in code shape; static analysis in reach cannot bound it (DESIGN.md §4)",
     "C07": "functional correctness of arithmetic/Boolean circuits over all operand values is numerical; would need symbolic execution of the circuits, a different technique family (DESIGN.md §4)",
